@@ -925,6 +925,14 @@ func TestCheck(t *testing.T) {
 					col.viols = append(col.viols, v)
 				}
 			}
+		case "linkage":
+			c2 := &collector{}
+			partLinkage(run, c2)
+			for _, v := range c2.viols {
+				if v.CaseID == d.CaseID {
+					col.viols = append(col.viols, v)
+				}
+			}
 		case "sched":
 			if schedReplay(d) {
 				run.Violate(ev.Violation{Scenario: d.Scenario, Oracle: d.Oracle, CaseID: d.CaseID, Detail: d.Detail})
@@ -953,6 +961,7 @@ func TestCheck(t *testing.T) {
 		synctest.Test(t, func(t *testing.T) { partLattice(run, col, over.Load) })
 	})
 	timed("uncle_limit_at_fork", func() { partUncleLimitAtFork(run, col) })
+	timed("batch_linkage", func() { partLinkage(run, col) })
 	timed("batch_schedules", func() { partSched(run) })
 	run.Set("part_seconds", secs)
 	finish()
